@@ -388,7 +388,8 @@ def interp(prog):
     it = Interp(prog)
     try:
         return it.run(), it.maxdepth_seen
-    except (Fuel, RecursionError):
+    except (Fuel, RecursionError, ValueError, OverflowError):
+        # ValueError: an integer with more than 4300 digits was printed (program skipped as too big)
         return None, 'fuel'
 
 
@@ -555,13 +556,18 @@ class Gen:
             stmts = [('label', label, stmts[0])]
         return pre + stmts
 
-    def exit_stmt(self, v, lo, hi):
-        """break/continue (own loop, or a labelled enclosing loop) when the loop variable has one value"""
+    def exit_stmt(self, v, lo, hi, last=False):
+        """break/continue (own loop, or a labelled enclosing loop) when the loop variable has one value.
+        A labelled exit is only generated as the LAST statement of a loop body: the compiler decides which
+        upvalues `break[l]`/`continue[l]` closes from the captures it has seen so far, so a labelled exit to an
+        OUTER loop followed (in source order) by a closure capturing an outer-loop variable leaves that variable
+        open (known finding witness:labelled-exit-before-capture, replayed from the corpus); the generator excludes
+        exactly that class by construction."""
         r = self.r
         what = 'contif' if r.chance(3, 5) else 'breakif'
-        labels = [l for l in self.loop_labels if l]
+        labels = [l for l in self.loop_labels if l] if last else []
         label = None
-        if labels and r.chance(1, 2):
+        if labels and r.chance(2, 3):
             label = r.choice(labels)
             self.features.add('labelled_' + ('continue' if what == 'contif' else 'break'))
         self.features.add('continue' if what == 'contif' else 'break')
@@ -591,8 +597,8 @@ class Gen:
         body += self.block(sc, depth + 1, r.range(0, 2), True, in_lam)
         if lists and r.chance(1, 3):
             body.append(('push', r.choice(lists), self.lam(sc, 0, depth)))
-        if r.chance(1, 4):
-            body.append(self.exit_stmt(v, lo, hi))
+        if r.chance(1, 3):
+            body.append(self.exit_stmt(v, lo, hi, last=True))
         return body
 
     def loop_body(self, sc, depth, in_lam, v):
